@@ -107,14 +107,14 @@ class Tensor:
                         ]
                     )
                 else:
-                    sliced_indices.append(
-                        [
-                            s.start if s.start is not None else (shape[axis_] - 1),
-                            s.stop if s.stop is not None else -(shape[axis_] + 1),
-                            axis_,
-                            s.step,
-                        ]
-                    )
+                    start = s.start if s.start is not None else (shape[axis_] - 1)
+                    stop = s.stop if s.stop is not None else -(shape[axis_] + 1)
+                    if start < -shape[axis_]:
+                        # A start before the first element selects nothing in Python
+                        # (slice.indices clamps it to -1); ONNX Slice would clamp it to 0
+                        # and return element 0. An empty range is passed instead.
+                        start, stop = 0, 0
+                    sliced_indices.append([start, stop, axis_, s.step])
             elif isinstance(s, Tensor):
                 if s.is_scalar:
                     scalar_indices.append([s, s + 1, axis_, 1])
